@@ -86,6 +86,16 @@ def rule_fill_buf(facts):
                 cal = kind[5:]
                 if cal.endswith(("is_empty", "::len", "PartialEq::eq", "Try::branch", "FromResidual::from_residual")):
                     continue
+                if cal.endswith(("Result::map", "Option::map", "Result::map_or", "Result::is_ok_and")):
+                    # `fill_buf().map(|b| b.is_empty())`: the closures of this function only ask for emptiness
+                    cls = [x for x in facts.bodies if x.promoted is None and x.kind == "Closure" and x.name.startswith(b.name + "::{closure")]
+                    if cls and all((flow.declared(y.term) or flow.callee(y.term) or "").endswith(("is_empty", "::len")) for x in cls for y in x.calls()) \
+                            and all(any((flow.declared(y.term) or "").endswith("is_empty") for y in x.calls()) or
+                                    any(st.k == "assign" and st.rv.k == "binop" and st.rv.binop in ("Eq", "Ne") and
+                                        (st.rv.a.const_int() == 0 or st.rv.b.const_int() == 0) for blk_ in x.blocks for st in blk_.stmts)
+                                    for x in cls):
+                        detail.append("emptiness test (in a closure)")
+                        continue
                 if cal.endswith(("into_iter", "::iter", "Iterator::next")):
                     scanned = True
                     continue
